@@ -27,6 +27,12 @@ CELLS = [
     ("ins-variable-draws", "ins", "G2u", {"nlive": 500, "min_samples": 100, "draw_constant": False}),
     ("ins-quantile-maf", "ins", "G2u", {"nlive": 500, "min_samples": 100, "threshold_method": "quantile", "flow_config": {"ftype": "maf"}}),
     ("std-nlive400", "std", "G2u", {"nlive": 400}),
+    ("std-bimodal", "std", "Bi2", {}),
+    ("ins-bimodal", "ins", "Bi2", {"nlive": 500, "min_samples": 100}),
+    ("std-constrained-prior", "std", "G2c", {}),
+    ("ins-constrained-prior", "ins", "G2c", {"nlive": 500, "min_samples": 100}),
+    ("std-flat-direction-prime-prior", "std", "G2f", {"reparameterisations": {"x0": {"reparameterisation": "rescaletobounds", "rescale_bounds": [0.0, 1.0], "prior": "uniform"},
+                                                                              "x1": {"reparameterisation": "rescaletobounds", "rescale_bounds": [0.0, 1.0], "prior": "uniform"}}}),
 ]
 QUICK = ["std-default", "std-no-uninformed", "std-analytic-nonuniform", "std-augmented", "std-maf-logit-t", "ins-default", "ins-strict-nonuniform"]
 
